@@ -70,10 +70,11 @@ def check_rays(case, ctx):
         d2[-1] = F(1)
     if kind in ("cross", "nearmiss"):
         X = [F(x) for x in case["X"]]
-        if case.get("xfar", 1) != 1:
+        far = case.get("xfar", 1) != 1 and kind == "cross"          # (a near miss is defined relative to coordinates of size <= 8)
+        if far:
             X = [abs(x) * case["xfar"] + case["xfar"] for x in X]          # all coordinates of one sign, magnitude 64 .. 600
             ctx.label("crossing-far-from-origin")
-        tf = 256 if case.get("xfar", 1) != 1 else 1          # ... and then the rays start some hundred units away from it
+        tf = 256 if far else 1          # ... and then the rays start some hundred units away from it
         p1 = [x - F(case["t1"]) * tf * d for x, d in zip(X, d1)]
         p2 = [x - F(case["t2"]) * tf * d for x, d in zip(X, d2)]
         if kind == "nearmiss":
